@@ -137,7 +137,7 @@ fn run_program(cfg: &Cfg, index: u64, stats: &mut Stats) {
     for f in &program.features {
         stats.cover("formers", f);
     }
-    if index == 0 {
+    if stats.samples.is_empty() {
         stats.sample(json!({"three_way_program_excerpt": sources.root_text().chars().rev().take(400).collect::<String>().chars().rev().collect::<String>(), "expected_exit": code}));
     }
     compare(stats, "programs", index, &sources, Some((&reference.stdout, code)), tags, program.features.len());
